@@ -38,8 +38,15 @@ From WV Require Gen.ConfigEmit Proofs.Config.
 Theorem c12_emit_wasm_source_pinned : WV.Gen.ConfigEmit.emit_wasm_skeleton = WV.Proofs.Config.expected_emit_wasm_skeleton.
 Proof. exact WV.Proofs.Config.emit_wasm_skeleton_pinned. Qed.
 
+(* the custom-section dispatch of Module::parse in the SOURCE (regenerated): only "producers", "name" and ".debug*" are interpreted, every other
+   section is captured raw *)
+From WV Require Gen.ParseSkeleton Proofs.ParsePinned.
+Theorem c12_parse_source_skeleton : WV.Gen.ParseSkeleton.parse_skeleton = WV.Proofs.ParsePinned.expected_parse_skeleton.
+Proof. exact WV.Proofs.ParsePinned.parse_skeleton_pinned. Qed.
+
 Print Assumptions c12_roundtrip.
 Print Assumptions c12_gc.
 Print Assumptions c12_emit_keeps_module.
 Print Assumptions c12_twice.
 Print Assumptions c12_emit_wasm_source_pinned.
+Print Assumptions c12_parse_source_skeleton.
